@@ -269,7 +269,12 @@ def u_problems(c):
 
     it.policies[S + ":check_element"] = ce_pol
     fkind = c.choose(3, "function")
-    info = {"a": {"annotation": "ann_a"}, "b": {"annotation": "ann_b"}}
+
+    class _Table(dict):
+        """The table transform() makes: a dictionary that also knows which of the variables are targets of a for loop."""
+        loopvars = frozenset({"a"})
+
+    info = _Table({"a": {"annotation": "ann_a"}, "b": {"annotation": "ann_b"}})
     if fkind == 0:
         func = None
     elif fkind == 1:
@@ -298,7 +303,8 @@ def u_problems(c):
         # not one of the documented meta-variables of THAT function (it could never fire)
         is_begin = z3.PrefixOf(z3.StringVal("#loop_"), t)
         suffix = z3.If(is_begin, z3.SubString(t, 6, z3.Length(t) - 6), z3.SubString(t, 9, z3.Length(t) - 9))
-        loop_ok = z3.Or(suffix == z3.StringVal("a"), suffix == z3.StringVal("b"))
+        # (... and b, a variable of the function that no loop binds, has no loop markers either)
+        loop_ok = suffix == z3.StringVal("a")
         # a dotted path names a variable and attributes of it: `a.` or `a..b` name nothing (such a capture could never fire)
         empty_part = z3.Or(z3.SuffixOf(z3.StringVal("."), t), z3.Contains(t, z3.StringVal("..")))
         bad = z3.If(is_loop, z3.Not(loop_ok), z3.If(is_hash, z3.Not(valid), z3.Or(z3.Not(in_table), empty_part, z3.Not(ce(t)))))
